@@ -60,7 +60,7 @@ def generate(tier):
                                 hp = (h in K.PARTNER) and ((len(sub) + len(h)) % 2 == 0) and (h, True) in plain
                                 cfgs.append(plain[(h, hp)])
                             for order in ((0, 1) if r <= 1 else ((r + len(cg.key)) % 2,)):
-                                for split in (('one', 'each') if r <= 1 else (('one', 'each')[(r + order) % 2],)):
+                                for split in (('one', 'each', 'onec') if r <= 1 else (('one', 'each', 'onec', 'eachc')[(r + order + len(sub[0])) % 4],)):
                                     yield (shape, g, partner, cg, cfgs, order, split)
                     # other traits with parameters of their own on the same fields: k <= 2 (thorough 3)
                     kmax = 2 if tier == 'quick' else 3
@@ -75,7 +75,7 @@ def generate(tier):
                             if r == 3:
                                 lists = [l[:1] for l in lists]
                             for combo in itertools.product(*lists):
-                                yield (shape, g, partner, cg, list(combo), (r + len(combo[0].key)) % 2, ('one', 'each')[len(cg.key) % 2])
+                                yield (shape, g, partner, cg, list(combo), (r + len(combo[0].key)) % 2, ('one', 'each', 'onec')[(len(cg.key) + len(combo[0].key)) % 3])
 
 
 def check(v, tier, only=None):
@@ -160,6 +160,6 @@ def check(v, tier, only=None):
                     'group g in {Debug, Clone[+Copy], PartialEq[+Eq], PartialOrd[+Ord], Hash, Default, Deref, DerefMut, Into} with its own '
                     'configurations (one deviation per configuration in quick, full product in thorough) x every subset of the other groups at the '
                     'plain level and k<=2 (thorough 3) other groups with parameters of their own on the same fields, in both list orders and with '
-                    'one-list / one-attribute-per-meta splitting; oracle: the impl items of g (by trait path; the inherent new() for Default) are '
+                    'one-list / one-attribute-per-meta splitting, with and without trailing commas; oracle: the impl items of g (by trait path; the inherent new() for Default) are '
                     'token-identical to those of the stand-alone expansion; non-trivial = the combined expansion contains items of other traits',
                     {'bounds': {'tier': tier, 'other_groups_with_parameters': 2 if tier == 'quick' else 3}})
